@@ -19,6 +19,7 @@ type multi interface {
 	part(i int) string
 	coords() string
 	geomT() geom.T
+	reserve(n int)
 }
 
 // setSRID: every value of a history carries an SRID of its own, which must travel with it.
@@ -84,6 +85,7 @@ func (m *mPoly) rev()          { m.g.Reverse() }
 func (m *mPoly) clone() multi  { return &mPoly{m.g.Clone()} }
 func (m *mPoly) swap(o multi)  { m.g.Swap(o.(*mPoly).g) }
 func (m *mPoly) geomT() geom.T { return m.g }
+func (m *mPoly) reserve(n int)  { m.g.Reserve(n) }
 func (m *mPoly) num() int      { return m.g.NumLinearRings() }
 func (m *mPoly) part(i int) string { return sxG1p(m.g.LinearRing(i)) }
 func (m *mPoly) coords() string { return sxCoords2(m.g.Coords()) }
@@ -98,6 +100,7 @@ func (m *mMLS) rev()          { m.g.Reverse() }
 func (m *mMLS) clone() multi  { return &mMLS{m.g.Clone()} }
 func (m *mMLS) swap(o multi)  { m.g.Swap(o.(*mMLS).g) }
 func (m *mMLS) geomT() geom.T { return m.g }
+func (m *mMLS) reserve(n int)  { m.g.Reserve(n) }
 func (m *mMLS) num() int      { return m.g.NumLineStrings() }
 func (m *mMLS) part(i int) string { return sxG1p(m.g.LineString(i)) }
 func (m *mMLS) coords() string { return sxCoords2(m.g.Coords()) }
@@ -115,6 +118,7 @@ func (m *mMP) rev()          { m.g.Reverse() }
 func (m *mMP) clone() multi  { return &mMP{m.g.Clone()} }
 func (m *mMP) swap(o multi)  { m.g.Swap(o.(*mMP).g) }
 func (m *mMP) geomT() geom.T { return m.g }
+func (m *mMP) reserve(n int)  { m.g.Reserve(n) }
 func (m *mMP) num() int      { return m.g.NumPoints() }
 func (m *mMP) part(i int) string { return sxG1p(m.g.Point(i)) }
 func (m *mMP) coords() string { return sxMCoords(m.g.Coords()) }
@@ -140,6 +144,7 @@ func (m *mMPoly) rev()         { m.g.Reverse() }
 func (m *mMPoly) clone() multi { return &mMPoly{m.g.Clone()} }
 func (m *mMPoly) swap(o multi) { m.g.Swap(o.(*mMPoly).g) }
 func (m *mMPoly) geomT() geom.T { return m.g }
+func (m *mMPoly) reserve(n int)  { m.g.Reserve(n) }
 func (m *mMPoly) num() int     { return m.g.NumPolygons() }
 func (m *mMPoly) part(i int) string {
 	p := m.g.Polygon(i)
@@ -308,6 +313,10 @@ func genC02(r *Rng, e *Emitter, n int) {
 				e.tally("op=swap")
 			case c < 14:
 				ops = append(ops, "num")
+				if r.chance(1, 2) {
+					// a capacity hint changes nothing that can be observed
+					g.reserve(r.Intn(40))
+				}
 				if g.geomT().SRID() != sa || g2.geomT().SRID() != sb {
 					obs = append(obs, "srid-did-not-travel-with-its-value")
 					break
